@@ -402,6 +402,9 @@ func (p *Parser) ParseTableDeclaration() (*ast.TableDeclaration, error) {
 
 func (p *Parser) ParseTableProperty() (*ast.TableProperty, error) {
 	var key *ast.String
+	// The leading comments of the property are on the first token of the key
+	// (a long string key ends on another token)
+	start := p.peekToken
 	switch p.peekToken.Token.Type {
 	case token.STRING:
 		p.NextToken()
@@ -421,7 +424,7 @@ func (p *Parser) ParseTableProperty() (*ast.TableProperty, error) {
 		return nil, errors.WithStack(UnexpectedToken(p.peekToken, "STRING"))
 	}
 	prop := &ast.TableProperty{
-		Meta: p.curToken,
+		Meta: start,
 		Key:  key,
 	}
 	prop.Key.Meta = clearComments(prop.Key.Meta)
